@@ -1,7 +1,8 @@
 import AITB.Model.Proto
 import AITB.Model.Guard
 import AITB.Model.ModelState
-open AITB AITB.Guard AITB.MS
+import AITB.Model.CoopDyn
+open AITB AITB.Guard AITB.MS AITB.Sampling
 
 namespace DrvC06
 
@@ -409,6 +410,61 @@ def coopLine : P String := do
   let v := v.diffIf (maccept == threw) s!"{comp} outcome model={errOfBool (!maccept)} impl={err}"
   return v.render
 
+
+/-- all tuples of a factor space, last factor fastest (the order the harness enumerates in) -/
+def factorsP (sp : List Nat) : P (List Nat) := P.rep P.nat sp.length
+
+/-- `coopdyn | S A graph | nT (rows cols entries)* | nB (tag actionTag rows cols values)* | ids | nQ queries` — see harness -/
+def coopdynLine : P String := do
+  P.bar
+  let S ← P.nats; let A ← P.nats; let g ← graphP S A; P.bar
+  let mats ← P.list (do let r ← P.nat; let c ← P.nat; let e ← tab2 r c; pure (Mat.mk r c e)); P.bar
+  let bases ← P.list (do
+      let t ← tagP; let atg ← tagP; let r ← P.nat; let c ← P.nat
+      let vals ← P.rep (P.rep P.q c) r
+      pure (BasisV.mk t atg r c vals)); P.bar
+  let ids ← (List.range S.length).mapM (fun _ => do
+      let sz ← P.nat; let psz ← P.nat
+      let rows ← P.rep (do let pid ← P.nat; let aid ← P.nat; let id2 ← P.nat; let part ← P.nat; pure (pid, aid, id2, part)) sz
+      pure (sz, psz, rows)); P.bar
+  let nS := (enumSpace S).length
+  let queries ← P.list (do
+      let s ← factorsP S; let a ← factorsP A; let viaCopy ← P.bool; let rew ← P.q
+      let pr ← P.rep (do let p ← P.q; let ppf ← P.q; pure (p, ppf)) nS
+      pure (s, a, viaCopy, rew, pr))
+  P.eof
+  let comp := "Factored::MDP::CooperativeModel"
+  let n := S.length
+  let v : Verdict := { tag := "coopdyn" }
+  -- the object exists, so the constructor accepted: the model must accept the same arguments, on a graph satisfying the invariant
+  let v := v.diffIf (!(coopAccepts false g mats (bases.map BasisV.shape))) s!"{comp}::ctor accepted_arguments_rejected_by_model"
+  let v := v.failIf (!(graphOK g)) "DDNGraph::push graph_invariant_broken"
+  -- row-id arithmetic: getIds(feature, j) / getId(feature, parentId, actionId) / getPartialSize
+  let v := (List.range n).foldl (fun (v : Verdict) i =>
+      let (sz, psz, rows) := ids.getD i (0, 0, [])
+      let ps := (g.parents.getD i default).toPS
+      let v := v.diffIf (sz != ddnSize S ps || psz != ps.features.length) s!"DDNGraph::getSize feature={i} model={ddnSize S ps} impl={sz}"
+      (List.range rows.length).foldl (fun (v : Verdict) j =>
+        let (pid, aid, id2, part) := rows.getD j (0, 0, 0, 0)
+        let v := v.failIf (id2 != j) s!"DDNGraph::getIds row_id_roundtrip feature={i} j={j} ids=({pid},{aid}) getId={id2}"
+        let v := v.failIf (!(decide (aid < ps.features.length) && decide (pid < part))) s!"DDNGraph::getIds parent_id_outside_block feature={i} j={j} ids=({pid},{aid}) partialSize={part}"
+        let v := v.diffIf (ddnIdsOfRow S ps j != (pid, aid)) s!"DDNGraph::getIds feature={i} j={j} model={(ddnIdsOfRow S ps j)} impl=({pid},{aid})"
+        v.diffIf (ddnPartialSize S ps aid != part) s!"DDNGraph::getPartialSize feature={i} actionId={aid} model={ddnPartialSize S ps aid} impl={part}") v) v
+  -- dynamics and rewards
+  let jslack : Rat := tol * n + eps
+  let v := queries.foldl (fun (v : Verdict) (s, a, viaCopy, rew, pr) =>
+      let who := if viaCopy then comp ++ "(copy)" else comp
+      let mrow := jointRow g mats s a
+      let irow := pr.map (·.1)
+      let v := v.failIf (!(jointDistB jslack irow)) s!"{who}::getTransitionProbability joint_row_not_distribution s={s} a={a} sum={irow.sum}"
+      let v := v.failIf (!((mrow.zip irow).all (fun (m, i) => closeQ eps m i)) || mrow.length != irow.length)
+                s!"{who}::getTransitionProbability transition_not_supplied s={s} a={a}"
+      let v := v.failIf (!(pr.all (fun (p, ppf) => closeQ eps p ppf)))
+                s!"DDN::getTransitionProbability(PartialFactors) transition_not_supplied s={s} a={a}"
+      let mr := coopReward g bases s a
+      v.failIf (!(closeQ eps mr rew)) s!"{who}::getExpectedReward reward_not_supplied s={s} a={a} model={mr} impl={rew}") v
+  return v.render
+
 /-- `guards` : static look at the generated guard table (no implementation output involved): one verdict -/
 def guardsLine : P String := do
   P.eof
@@ -431,6 +487,7 @@ def handle (toks : List String) : String :=
     | "lm" :: rest => P.run lmLine rest
     | "push" :: rest => P.run pushLine rest
     | "coop" :: rest => P.run coopLine rest
+    | "coopdyn" :: rest => P.run coopdynLine rest
     | "guards" :: rest => P.run guardsLine rest
     | _ => none
   r.getD "bad-op"
